@@ -68,6 +68,8 @@ struct Params {
     split: bool,
     /// default scheduling policy of the world
     policy: u8,
+    /// pipe reads may yield cooperatively (choice point)
+    coop: bool,
 }
 
 fn scenario(pr: &Params) -> Verdict {
@@ -76,6 +78,7 @@ fn scenario(pr: &Params) -> Verdict {
         yields: true,
         select: false,
         policy: pr.policy,
+        coop: pr.coop,
     });
     let ty = pr.ty;
     let mut conns = Vec::new();
@@ -227,7 +230,7 @@ fn scenario(pr: &Params) -> Verdict {
 }
 
 fn params_json(p: &Params) -> serde_json::Value {
-    json!({"type": p.ty.name(), "peers": p.peers, "msgs": p.msgs, "truncated_peer": p.truncated_peer, "split": p.split, "policy": p.policy})
+    json!({"type": p.ty.name(), "peers": p.peers, "msgs": p.msgs, "truncated_peer": p.truncated_peer, "split": p.split, "policy": p.policy, "coop": p.coop})
 }
 
 fn params_from(v: &serde_json::Value) -> Option<Params> {
@@ -238,6 +241,7 @@ fn params_from(v: &serde_json::Value) -> Option<Params> {
         truncated_peer: v["truncated_peer"].as_bool()?,
         split: v["split"].as_bool()?,
         policy: v["policy"].as_u64().unwrap_or(0) as u8,
+        coop: v["coop"].as_bool().unwrap_or(false),
     })
 }
 
@@ -246,22 +250,24 @@ pub fn socket_jobs(tier: Tier) -> Vec<zvcore::explore::Job> {
     let mut jobs = Vec::new();
     for ty in [Ty::Pull, Ty::Sub, Ty::Dealer, Ty::Router, Ty::Rep, Ty::XPub] {
         let mut variants = vec![
-            Params { ty, peers: 2, msgs: 2, truncated_peer: false, split: true, policy: 0 },
-            Params { ty, peers: 2, msgs: 3, truncated_peer: true, split: false, policy: 0 },
-            Params { ty, peers: 1, msgs: 3, truncated_peer: false, split: true, policy: 0 },
+            Params { ty, peers: 2, msgs: 2, truncated_peer: false, split: true, policy: 0, coop: false },
+            Params { ty, peers: 2, msgs: 3, truncated_peer: true, split: false, policy: 0, coop: false },
+            Params { ty, peers: 1, msgs: 3, truncated_peer: false, split: true, policy: 0, coop: false },
         ];
-        variants.push(Params { ty, peers: 3, msgs: 2, truncated_peer: true, split: true, policy: 0 });
+        variants.push(Params { ty, peers: 3, msgs: 2, truncated_peer: true, split: true, policy: 0, coop: false });
         if thorough {
-            variants.push(Params { ty, peers: 3, msgs: 3, truncated_peer: false, split: false, policy: 0 });
+            variants.push(Params { ty, peers: 3, msgs: 3, truncated_peer: false, split: false, policy: 0, coop: false });
         }
         let variants: Vec<Params> = variants
             .into_iter()
             .flat_map(|v| (0..3u8).map(move |pol| Params { policy: pol, ..v.clone() }))
+            // and once more with cooperative yields on reads (default policy only)
+            .flat_map(|v| if v.policy == 0 { vec![v.clone(), Params { coop: true, ..v }] } else { vec![v] })
             .collect();
         for pr in variants {
             let pr2 = pr.clone();
             jobs.push(e3::job(
-                format!("C05/socket/{}/{}x{}{}{}/policy{}", ty.name(), pr.peers, pr.msgs, if pr.truncated_peer { "/trunc" } else { "" }, if pr.split { "/split" } else { "" }, pr.policy),
+                format!("C05/socket/{}/{}x{}{}{}/policy{}{}", ty.name(), pr.peers, pr.msgs, if pr.truncated_peer { "/trunc" } else { "" }, if pr.split { "/split" } else { "" }, pr.policy, if pr.coop { "/coop" } else { "" }),
                 params_json(&pr),
                 tier.pick(2, 3),
                 tier.pick(200_000, 3_000_000),
